@@ -1,14 +1,73 @@
-"""design-level (Layer B) model checks shared by several properties; filled in per module"""
+"""design-level (Layer B) model checks shared by several properties.
+Each entry: module, constants per tier, invariants, properties, constraint, mutants {Mut value: expected violated name}"""
 import os
 from common import *
 
-SPECS = {}
+SPECS = {
+    "SetSketch": dict(
+        quick=[dict(M=2, Q=2, IMAX=2, NItems=2, NInst=2), dict(M=2, Q=2, IMAX=3, NItems=3, NInst=1)],
+        thorough=[dict(M=2, Q=2, IMAX=2, NItems=2, NInst=2), dict(M=2, Q=2, IMAX=3, NItems=3, NInst=1),
+                  dict(M=3, Q=2, IMAX=3, NItems=2, NInst=1), dict(M=2, Q=3, IMAX=4, NItems=2, NInst=2),
+                  dict(M=3, Q=1, IMAX=2, NItems=2, NInst=2)],
+        invariants=["Refines", "LowerOK", "ReinitIsInit"], properties=["EstimateMonotone"], constraint=None,
+        mutants=dict(lowmax="LowerOK", lowplus="Refines", mergemin="Refines", mergelow="LowerOK", reinitlow="LowerOK"),
+        mutant_consts=dict(M=2, Q=2, IMAX=3, NItems=2, NInst=2),
+        actions=["Sketch", "Merge", "Reinit"]),
+    "SuperMinHash": dict(
+        quick=[dict(M=3, NItems=2, G=2, MaxRank=4), dict(M=2, NItems=3, G=1, MaxRank=4)],
+        thorough=[dict(M=3, NItems=2, G=2, MaxRank=5), dict(M=2, NItems=3, G=2, MaxRank=5), dict(M=3, NItems=3, G=1, MaxRank=4),
+                  dict(M=4, NItems=2, G=1, MaxRank=3)],
+        invariants=["Refines", "Histo", "AupOK", "SingleIsPerm", "ReinitIsInit"], properties=[], constraint="RankBound",
+        mutants=dict(jlt="Refines", nolazy="Refines", reinitb="Histo", reinitaup="AupOK"),
+        mutant_consts=dict(M=3, NItems=2, G=1, MaxRank=4),
+        actions=["Sketch", "Reinit"]),
+    "SuperMinHash2": dict(
+        quick=[dict(M=3, NItems=2, G=2), dict(M=2, NItems=3, G=2)],
+        thorough=[dict(M=3, NItems=2, G=2), dict(M=2, NItems=3, G=2), dict(M=3, NItems=3, G=1), dict(M=4, NItems=2, G=1)],
+        invariants=["Refines", "StoredAreStreamed", "NoPlaceholder", "Histo", "AupOK", "SingleIsPerm", "ReinitIsInit"],
+        properties=[], constraint=None,
+        mutants=dict(lgt="Refines", noaup="AupOK", reinitl="Histo"),
+        mutant_consts=dict(M=3, NItems=2, G=1),
+        actions=["Sketch", "Reinit"]),
+}
+
+_done = {}
 
 
-def check_sketch_specs(chk, modules, quick):
+def check_module(chk, module, quick, with_mutants=True):
+    """TLC must accept the faithful model and refute each deviation; a failure here is a tool error"""
+    sp = SPECS[module]
+    key = (module, quick)
+    tot = dict(states=0, gen=0)
+    for n, consts in enumerate(sp["quick"] if quick else sp["thorough"]):
+        c = dict(consts)
+        c["Mut"] = '"none"'
+        cfg = write_cfg(os.path.join(chk.wd, "%s_%d.cfg" % (module, n)), constants=c, invariants=sp["invariants"],
+                        properties=sp["properties"], constraints=[sp["constraint"]] if sp["constraint"] else ())
+        res = tlc_check(module, cfg, chk.wd, workers=8, timeout=1500, xss=True, coverage=(n == 0))
+        if n == 0:
+            zero = [a for a in res.coverage_zero_actions() if a in sp["actions"]]
+            if zero:
+                raise ToolError("%s: action never taken: %s" % (module, zero))
+        chk.tlc_stats(res)
+        tot["states"] += res.distinct
+        tot["gen"] += res.generated
+    refuted = []
+    if with_mutants:
+        for mut, inv in sp["mutants"].items():
+            c = dict(sp["mutant_consts"])
+            c["Mut"] = '"%s"' % mut
+            cfg = write_cfg(os.path.join(chk.wd, "%s_mut_%s.cfg" % (module, mut)), constants=c, invariants=sp["invariants"],
+                            properties=sp["properties"], constraints=[sp["constraint"]] if sp["constraint"] else ())
+            tlc_check(module, cfg, chk.wd, workers=4, timeout=600, xss=True, expect_violation=inv)
+            refuted.append(mut)
+    chk.cov.setdefault("layer_b", {})[module] = dict(distinct_states=tot["states"], deviations_refuted=refuted)
+    log("[%s] %s.tla: %d distinct states, invariants %s hold; deviations refuted: %s" % (
+        chk.pid, module, tot["states"], ",".join(sp["invariants"] + sp["properties"]), ",".join(refuted) or "-"))
+
+
+def check_sketch_specs(chk, modules, quick, with_mutants=None):
+    if with_mutants is None:
+        with_mutants = not quick
     for m in modules:
-        fn = SPECS.get(m)
-        if fn is None:
-            chk.notes.append("Layer-B model check of %s.tla not available in this build" % m)
-            continue
-        fn(chk, quick)
+        check_module(chk, m, quick, with_mutants=with_mutants)
